@@ -94,6 +94,12 @@ def _make_owner(trait_factory, falsy, added, initial):
         o.c = initial
         return o, foreign
     o = _owner_class(None, falsy)()
+    if added == "over":
+        # the name held a container trait of ANOTHER kind before (its items-event trait must not survive the redefinition)
+        prior = trait_factory()
+        o.add_trait("c", Dict(tt.Int, tt.Int) if isinstance(prior, (List, Set)) else List(tt.Int))
+        o.c = {1: 2} if isinstance(prior, (List, Set)) else [1]
+        o.add_trait("c2", List(tt.Int) if isinstance(prior, (Dict, Set)) else Set(tt.Int))
     o.add_trait("c", trait_factory())
     o.add_trait("c2", trait_factory())
     twin = _owner_class(None, falsy)()
